@@ -2,7 +2,7 @@
 # usage: seedtest.sh <Cnn> <k> [extra check ids...]   confirms mutant k of property Cnn in its scratch worktree
 # (suite still passes, demo fails with / passes without), then applies it to /repo, runs ./check, and reverts.
 id=$1; k=$2; shift 2
-wt=/tmp/mut/$id; out=/tmp/mut/${id}_out
+MD=${MUT_DIR:-/tmp/mut}; wt=$MD/$id; out=$MD/${id}_out
 diff=$out/m$k.diff; demo=$out/m${k}_demo.py
 [ -f "$diff" ] || { echo "$id m$k: no diff"; exit 0; }
 git -C $wt checkout -q -- . ; git -C $wt clean -fdq
